@@ -68,9 +68,85 @@ def locals_of(fn):
     return {n for n in assigned if n not in banned and n not in nested_used and not hasattr(builtins, n) and not n.startswith("__")}
 
 
+class Temps(ast.NodeTransformer):
+    """x = a <op> b  ->  _t1 = a; x = _t1 <op> b   (evaluation order is unchanged)"""
+
+    def __init__(self):
+        self.k = 0
+
+    def _block(self, stmts):
+        out = []
+        for st in stmts:
+            st = self.visit(st)
+            if isinstance(st, ast.Assign) and isinstance(st.value, ast.BinOp) and not isinstance(st.value.left, (ast.Constant, ast.Name)):
+                self.k += 1
+                nm = f"_t{self.k}"
+                out.append(ast.Assign(targets=[ast.Name(id=nm, ctx=ast.Store())], value=st.value.left, lineno=st.lineno, col_offset=0))
+                st.value.left = ast.Name(id=nm, ctx=ast.Load())
+            out.append(st)
+        return out
+
+    def generic_visit(self, node):
+        for f in ("body", "orelse", "finalbody"):
+            v = getattr(node, f, None)
+            if isinstance(v, list) and v and isinstance(v[0], ast.stmt):
+                setattr(node, f, self._block(v))
+        if isinstance(node, ast.Try):
+            for h in node.handlers:
+                h.body = self._block(h.body)
+        return node
+
+    def visit_Lambda(self, node):
+        return node
+
+
+class Commute(ast.NodeTransformer):
+    """a * b -> b * a (elementwise products commute bit for bit); matrix products (@) and sums are left alone"""
+
+    def visit_BinOp(self, node):
+        self.generic_visit(node)
+        if isinstance(node.op, ast.Mult) and not any(isinstance(x, (ast.List, ast.Tuple, ast.JoinedStr)) or
+                                                    (isinstance(x, ast.Constant) and isinstance(x.value, (str, bytes))) for x in (node.left, node.right)):
+            node.left, node.right = node.right, node.left
+        return node
+
+
+class SwapIf(ast.NodeTransformer):
+    """if t: A else: B -> if not t: B else: A   (only two-armed ifs that are not elif chains)"""
+
+    def visit_If(self, node):
+        self.generic_visit(node)
+        if node.orelse and not (len(node.orelse) == 1 and isinstance(node.orelse[0], ast.If)):
+            node.test = ast.UnaryOp(op=ast.Not(), operand=node.test)
+            node.body, node.orelse = node.orelse, node.body
+        return node
+
+
+def _in_functions(tree, quals, fnvisit):
+    def visit(node, prefix):
+        for c in ast.iter_child_nodes(node):
+            if isinstance(c, (ast.FunctionDef, ast.AsyncFunctionDef)):
+                q = prefix + c.name
+                if q in quals:
+                    fnvisit(c)
+                visit(c, q + ".")
+            elif isinstance(c, ast.ClassDef):
+                visit(c, prefix + c.name + ".")
+            else:
+                visit(c, prefix)
+    visit(tree, "")
+
+
 def transform(path, quals, mode):
     src = open(path).read()
     tree = ast.parse(src)
+    if mode == "temps":
+        t = Temps()
+        _in_functions(tree, quals, lambda fn: t.generic_visit(fn))
+    if mode == "commute":
+        _in_functions(tree, quals, lambda fn: Commute().generic_visit(fn))
+    if mode == "swapif":
+        _in_functions(tree, quals, lambda fn: SwapIf().generic_visit(fn))
     if mode == "rename":
         def visit(node, prefix):
             for c in ast.iter_child_nodes(node):
@@ -87,6 +163,7 @@ def transform(path, quals, mode):
                 else:
                     visit(c, prefix)
         visit(tree, "")
+    ast.fix_missing_locations(tree)
     out = ast.unparse(tree)
     open(path, "w").write(out + "\n")
 
@@ -102,7 +179,7 @@ def main():
             for f in fc:
                 rel, q = f.split(":", 1)
                 byfile.setdefault(rel, set()).add(q.split("#")[0])
-            for mode in ("unparse", "rename"):
+            for mode in os.environ.get("MODES", "unparse,rename,temps,commute,swapif").split(","):
                 d = os.path.join(base, f"{pid}_{mode}")
                 shutil.copytree("/repo/pyyeti", os.path.join(d, "pyyeti"), ignore=shutil.ignore_patterns("tests", "__pycache__", "*.so"))
                 for extra in ("setup.py", "pyproject.toml", "setup.cfg"):
